@@ -4,11 +4,14 @@ declared signatures only), the class-level callbacks of a DECLARED class still r
 call on such a value is not taken for a parameterized property (C09).  Wave-10 / wave-11 reviews of repo fixes d29231e,
 4e19366, 941f4e6.  No `from __future__ import annotations` here: the annotations are evaluated where they stand."""
 import ast
+import functools
 import logging
 import types
-from typing import Iterable
+from typing import Dict, Generic, Iterable, List, Tuple, TypeVar
 
-from func_adl import ObjectStream, func_adl_callback
+from func_adl import ObjectStream, func_adl_callback, func_adl_parameterized_call
+
+T = TypeVar("T")
 
 DictKeys = type({}.keys())
 NoneType = type(None)
@@ -28,6 +31,24 @@ class CbJet:
     def pt(self, scale: float = 1.0) -> float: ...
 
 
+class CJet:
+    # a declared method behind a decorator object that is a descriptor (wave-12 review r3)
+    @functools.lru_cache
+    def cached(self, n: int = 4) -> float: ...
+
+
+def _prop_cb(s, a, param_1):
+    return s, ast.Call(func=ast.Attribute(value=a.func.value, attr="getAttrFloat", ctx=ast.Load()), args=a.args, keywords=[]), float
+
+
+class Vec(Generic[T]):
+    def at(self, i: int = 0) -> T: ...
+
+    @func_adl_parameterized_call(_prop_cb)
+    @property
+    def getAttr(self): ...
+
+
 class PlainName(str):
     pass
 
@@ -44,6 +65,12 @@ class Event:
     def nothing(self) -> None: ...
     def text(self) -> str: ...
     def jets(self) -> Iterable[CbJet]: ...
+    def li(self) -> List[int]: ...
+    def d(self) -> Dict[str, int]: ...
+    def tup(self) -> Tuple[int, float]: ...
+    def c(self) -> complex: ...
+    def cjet(self) -> CJet: ...
+    def vec(self) -> Vec[CJet]: ...
 
 
 # (lambda text, expected query text, must the class-level callback have run)
@@ -64,6 +91,16 @@ CASES = [
     ("lambda e: e.mod().table['cal'](1)", "Select(ds, lambda e: e.mod().table['cal'](1))", False),
     ("lambda e: e.nothing().x['k'](1)", "Select(ds, lambda e: e.nothing().x['k'](1))", False),
     ("lambda e: e.text().join['k'](1)", "Select(ds, lambda e: e.text().join['k'](1))", False),
+    # wave-12 review of 2d2944f
+    ("lambda e: e.li().count(1)", "Select(ds, lambda e: e.li().count(1))", False),
+    ("lambda e: e.d().get('a')", "Select(ds, lambda e: e.d().get('a'))", False),
+    ("lambda e: e.d().keys()", "Select(ds, lambda e: e.d().keys())", False),
+    ("lambda e: e.tup().index(1)", "Select(ds, lambda e: e.tup().index(1))", False),
+    ("lambda e: e.c().real()", "Select(ds, lambda e: e.c().real())", False),
+    ("lambda e: e.c().conjugate()", "Select(ds, lambda e: e.c().conjugate())", False),
+    ("lambda e: e.cjet().cached()", "Select(ds, lambda e: e.cjet().cached(4))", False),
+    ("lambda e: e.vec().at().cached()", "Select(ds, lambda e: e.vec().at(0).cached(4))", False),
+    ("lambda e: e.vec().getAttr['f']('x')", "Select(ds, lambda e: e.vec().getAttrFloat('x'))", False),
 ]
 
 
